@@ -150,12 +150,12 @@ def RxIn (ops : List TOp) (x : Nat) : Prop := ∃ t ae ce pc, TOp.rx t x ae ce p
 def seenAfter (seen : Nat → Prop) (op : TOp) (x : Nat) : Prop := seen x ∨ ∃ t ae ce pc, op = TOp.rx t x ae ce pc
 
 /-- whatever the answer, every tracked state stays fine -/
-theorem accept_inv {seen : Nat → Prop} (a : Acc) (op : TOp) (h : ∀ s ∈ a.branches, BrOK seen s) :
-    ∀ s ∈ (accept a op).1.branches, BrOK (seenAfter seen op) s := by
+theorem acceptCore_inv {seen : Nat → Prop} (a : Acc) (op : TOp) (h : ∀ s ∈ a.branches, BrOK seen s) :
+    ∀ s ∈ (acceptCore a op).1.branches, BrOK (seenAfter seen op) s := by
   have hmono : ∀ s, BrOK seen s → BrOK (seenAfter seen op) s := fun s hs => brOK_mono (fun x hx => Or.inl hx) hs
   cases op with
   | cfg mad limit =>
-    simp only [accept, acceptCfg]
+    simp only [acceptCore, acceptCfg]
     split
     · intro s hs; exact hmono s (h s hs)
     · rename_i hl
@@ -164,7 +164,7 @@ theorem accept_inv {seen : Nat → Prop} (a : Acc) (op : TOp) (h : ∀ s ∈ a.b
       subst hs
       exact ⟨⟨limit, Inv.new limit (by omega)⟩, fun x hx => absurd hx (mem_nil x)⟩
   | rx t pn ae ce pc =>
-    simp only [accept, acceptRx, rxStates]
+    simp only [acceptCore, acceptRx, rxStates]
     intro s hs
     have hs := dedup_subset _ _ hs
     obtain ⟨s0, hs0, rfl⟩ := List.mem_map.1 hs
@@ -179,7 +179,7 @@ theorem accept_inv {seen : Nat → Prop} (a : Acc) (op : TOp) (h : ∀ s ∈ a.b
   | tx t own ae obs m =>
     cases obs with
     | some obs =>
-      simp only [accept, acceptTxAck]
+      simp only [acceptCore, acceptTxAck]
       split
       · intro s hs; exact hmono s (h s hs)
       · split
@@ -199,7 +199,7 @@ theorem accept_inv {seen : Nat → Prop} (a : Acc) (op : TOp) (h : ∀ s ∈ a.b
             exact hmono s (brOK_complete s0 s own ae hc (brOK_advanceAll a.branches t h s0 hs0'))
           · intro s hs; exact hmono s (h s hs)
     | none =>
-      simp only [accept, acceptTxNoAck]
+      simp only [acceptCore, acceptTxNoAck]
       split
       · intro s hs; exact hmono s (h s hs)
       · split
@@ -211,7 +211,7 @@ theorem accept_inv {seen : Nat → Prop} (a : Acc) (op : TOp) (h : ∀ s ∈ a.b
           simp only [goodNoAck] at hs
           exact hmono s (brOK_advanceAll a.branches t h s (dedup_subset _ _ (List.mem_filter.1 hs).1))
   | acked rs =>
-    simp only [accept, acceptAcked]
+    simp only [acceptCore, acceptAcked]
     split
     · rename_i next hnext
       intro s hs
@@ -221,17 +221,30 @@ theorem accept_inv {seen : Nat → Prop} (a : Acc) (op : TOp) (h : ∀ s ∈ a.b
       exact hmono s (foldOpt_inv (BrOK seen) _ (fun s r s' hf hp => brOK_packetAck s s' [r] hf hp) rs s0 s hc (h s0 hs0))
     · intro s hs; exact hmono s (h s hs)
   | lost pns =>
-    simp only [accept, acceptLost]
+    simp only [acceptCore, acceptLost]
     intro s hs
     have hs := dedup_subset _ _ hs
     obtain ⟨s0, hs0, rfl⟩ := List.mem_map.1 hs
     exact hmono _ (brOK_lostState pns s0 (h s0 hs0))
 
+theorem accept_branches (a : Acc) (op : TOp) : (accept a op).1.branches = (acceptCore a op).1.branches := rfl
+
+theorem accept_isOk (a : Acc) (op : TOp) : (accept a op).2.isOk = (acceptCore a op).2.isOk := by
+  simp only [accept]
+  cases (acceptCore a op).2 <;> cases op <;> (try rfl)
+  rename_i info t own ae obs m
+  cases obs <;> rfl
+
+theorem accept_inv {seen : Nat → Prop} (a : Acc) (op : TOp) (h : ∀ s ∈ a.branches, BrOK seen s) :
+    ∀ s ∈ (accept a op).1.branches, BrOK (seenAfter seen op) s := by
+  rw [accept_branches]; exact acceptCore_inv a op h
+
 /-- an ACCEPTED transmission only acknowledges packet numbers some tracked state holds -/
 theorem accept_tx_ok {seen : Nat → Prop} (a : Acc) (t own : Nat) (ae : Bool) (obs : List Interval) (m : Mode)
     (h : ∀ s ∈ a.branches, BrOK seen s) (hok : (accept a (.tx t own ae (some obs) m)).2.isOk = true) :
     ∀ x, Mem obs x → seen x := by
-  simp only [accept, acceptTxAck] at hok
+  rw [accept_isOk] at hok
+  simp only [acceptCore, acceptTxAck] at hok
   split at hok
   · cases hok
   · split at hok
